@@ -95,6 +95,9 @@ class Ctx:
         """count one executed case. `ident` identifies the case (any JSON-able
         value); it is hashed only when the case is non-trivial."""
         self.evaluations += 1
+        if isinstance(ident, dict) and ident.get('warmup'):
+            # parser cases whose sentence is parsed after other sentences of the same call (parser_checks.execute)
+            self.classes['(sentence not first in its call)'] += 1
         if cls is not None:
             self.classes[cls] += 1
         if nontrivial:
